@@ -84,3 +84,18 @@ Theorem C07_thumb32_ldb w : 0 <= w < 2 ^ 32 ->
   dec_thumb_load_byte_memory_hints w = eval_leaf no_env_res (Val None) (lookup t32_ldb_table (LRet (Val None)) w) w.
 Proof. exact (dec_thumb32_ldb_table w). Qed.
 Print Assumptions C07_thumb32_ldb.
+(* A6.3.4 branches and miscellaneous control *)
+Theorem C07_thumb32_bmc w : 0 <= w < 2 ^ 32 ->
+  dec_thumb_branches_and_miscellaneous_control w = eval_leaf t32_bmc_env (Val None) (lookup t32_bmc_table (LRet (Val None)) w) w.
+Proof. exact (dec_thumb32_bmc_table w). Qed.
+Print Assumptions C07_thumb32_bmc.
+(* change processor state, and hints *)
+Theorem C07_thumb32_cps w : 0 <= w < 2 ^ 32 ->
+  dec_thumb_change_processor_state_and_hints w = eval_leaf no_env_res (Val None) (lookup t32_cps_table (LRet (Val None)) w) w.
+Proof. exact (dec_thumb32_cps_table w). Qed.
+Print Assumptions C07_thumb32_cps.
+(* miscellaneous control instructions *)
+Theorem C07_thumb32_mctl w : 0 <= w < 2 ^ 32 ->
+  dec_thumb_miscellaneous_control_instructions w = eval_leaf no_env_res (Val None) (lookup t32_mctl_table (LRet (Val None)) w) w.
+Proof. exact (dec_thumb32_mctl_table w). Qed.
+Print Assumptions C07_thumb32_mctl.
